@@ -62,6 +62,11 @@ def as_v(ev, x):
             return App("seq", items + comps)
         return Tup(items)
     if isinstance(x, Dct):
+        if hasattr(x, "comp"):
+            param, (k, v) = x.comp
+            loops = [as_v(ev, p[1]) for p in param if p[0] != "if"]
+            its = [as_v(ev, p[2]) for p in param if p[0] != "if"]
+            return App("dictcomp", (Tup(loops), Tup(its), as_v(ev, k), as_v(ev, v)))
         return App("dict", [Tup([k, as_v(ev, v)]) for k, v in x.items.items()])
     if isinstance(x, Obj):
         return Sym(x.key, ("object",))
@@ -462,7 +467,12 @@ def np_call(ev, name, args, kwargs, node):
         kw = _kw(ev, kwargs)
         if len(A) > 1:
             kw.append(("axis", as_v(ev, A[1])))
-        return App(fn, (as_v(ev, x),), kw)
+        xv = as_v(ev, x)
+        if name == "sum":
+            blk = _block_sum(ev, xv, dict(kw).get("axis"))
+            if blk is not None:
+                return blk
+        return App(fn, (xv,), kw)
     if name == "sqrt":
         return mk_app("sqrt", [as_v(ev, arg(0))])
     if name == "trapezoid":
@@ -485,6 +495,30 @@ def np_call(ev, name, args, kwargs, node):
         return App(name, [as_v(ev, a) for a in A], _kw(ev, kwargs))
     ev.note_unmodelled("numpy." + name, node)
     return App("ext:numpy." + name, [as_v(ev, a) for a in A], _kw(ev, kwargs))
+
+
+def _is_full_slice(i):
+    return isinstance(i, App) and i.fn == "slice" and all(a == Const(None) for a in i.args)
+
+
+def _block_sum(ev, xv, axis):
+    """sum(B[..., k, :, :], axis=(-1,-2)) for a buffer B of shape (..., 2, 2) = sum of the four cells read from B."""
+    if not (isinstance(axis, Tup) and sorted(const_of(a) for a in axis.items if is_const(a)) == [-2, -1]):
+        return None
+    if not (isinstance(xv, App) and xv.fn == "getitem" and isinstance(xv.args[1], Tup)):
+        return None
+    base, idx = xv.args
+    items = idx.items
+    if len(items) < 3 or not (_is_full_slice(items[-1]) and _is_full_slice(items[-2])):
+        return None
+    sh = shape_of(base)
+    if sh is None or len(sh.items) < 2 or sh.items[-1] != Const(2) or sh.items[-2] != Const(2):
+        return None
+    tot = Const(0)
+    for a in (0, 1):
+        for b in (0, 1):
+            tot = add(tot, getitem(ev, base, Tup(list(items[:-2]) + [Const(a), Const(b)])))
+    return tot
 
 
 def call_ext(ev, dotted, args, kwargs, node):
@@ -578,7 +612,7 @@ def value_attr(ev, v, name, node):
 def shape_of(v):
     """Shape tuple (Tup, possibly with Star packs) when derivable from the term."""
     v = strip_fresh(v)
-    while isinstance(v, App) and v.fn in ("store", "fresh", "asarray", "zeros_like", "empty_like", "ones_like", "full_like") and v.args:
+    while isinstance(v, App) and v.fn in ("store", "fresh", "asarray", "zeros_like", "empty_like", "ones_like", "full_like", "after_loop", "carried") and v.args:
         v = strip_fresh(v.args[0])
     if isinstance(v, App) and v.fn in ("empty", "zeros", "ones", "full"):
         sh = v.args[0]
@@ -599,6 +633,11 @@ def shape_fact(name, base):
         return App(name, (b,))
     if name == "shape":
         return sh
+    if name == "size" and all(is_const(i) for i in sh.items):
+        tot = Const(1)
+        for i in sh.items:
+            tot = mul(tot, i)
+        return tot
     if name == "ndim":
         tot = Const(0)
         for i in sh.items:
@@ -760,6 +799,14 @@ def getitem(ev, base, idx, node=None):
         base = as_v(ev, base)
     if isinstance(base, ListElem):
         return App("getitem", (as_v(ev, base), as_v(ev, idx)))
+    if isinstance(base, Tup) and is_const(idx) and isinstance(const_of(idx), int) and const_of(idx) < 0:
+        tail = []
+        for x in reversed(base.items):
+            if isinstance(x, Star):
+                break
+            tail.append(x)
+        if -const_of(idx) <= len(tail):
+            return tail[-const_of(idx) - 1]
     if isinstance(base, Tup):
         if is_const(idx):
             i = const_of(idx)
@@ -788,6 +835,8 @@ def getitem(ev, base, idx, node=None):
         base = b
     if isinstance(base, App) and base.fn in ("zeros", "zeros_like") and not (isinstance(idx, App)):
         return Const(0)
+    if isinstance(base, App) and base.fn in ("empty", "empty_like") and not (isinstance(idx, App)):
+        return App("uninitialised", (base, idx))
     return mk_app("getitem", [base, idx])
 
 
